@@ -760,6 +760,13 @@ func firstPanicLine(s string) string {
 	return "no-panic-line"
 }
 
+func head(s string, n int) string {
+	if len(s) > n {
+		return s[:n] + "…"
+	}
+	return s
+}
+
 func tail(s string, n int) string {
 	if len(s) > n {
 		return s[len(s)-n:]
